@@ -327,12 +327,31 @@ where
     }
 }
 
+/// "Is `LinkedList<T>` a decode target, and if so what does it decode to" — answered by method resolution: the inherent
+/// method exists only where the library implements the decoder for `LinkedList<T>`, the trait method is the fallback.
+struct ListProbe<T>(std::marker::PhantomData<T>);
+trait ListProbeFallback {
+    fn decode_list(&self, _bytes: &[u8]) -> Option<Call<Val>> {
+        None
+    }
+}
+impl<T> ListProbeFallback for ListProbe<T> {}
+impl<T> ListProbe<T>
+where
+    LinkedList<T>: BinaryDeserializer + Model,
+{
+    fn decode_list(&self, bytes: &[u8]) -> Option<Call<Val>> {
+        Some(de::<LinkedList<T>>(bytes))
+    }
+}
+
 fn matrix_plain<E>(ctx: &mut Ctx, acc: &mut Acc, name: &str)
 where
     E: Model + BinarySerializer + BinaryDeserializer + Clone,
 {
     let ty = E::ty();
     let rounds = ctx.n(40, 400);
+    let mut missing_list_reported = false;
     for len in lengths(ctx) {
         for round in 0..rounds {
             let mut rng = ctx.rng_for(0xC12, name, (len as u64) << 20 | round);
@@ -369,6 +388,19 @@ where
                 };
                 if let Some(g) = got {
                     cell.judge("array", &b, g, &order, true);
+                }
+                // the linked list is a member of the family for every element type, not only for hashable ones
+                match ListProbe::<E>(std::marker::PhantomData).decode_list(&b) {
+                    Some(g) => cell.judge("LinkedList", &b, g, &order, true),
+                    None => {
+                        if !missing_list_reported {
+                            missing_list_reported = true;
+                            cell.acc.violation(
+                                format!("C12|{name}|LinkedList_is_no_decode_target"),
+                                J::obj().with("check", J::s("C12")).with("mode", J::s("container_matrix")).with("element", J::s(name)).with("what", J::s("the library has no BinaryDeserializer for LinkedList of this element type")),
+                            );
+                        }
+                    }
                 }
             }
         }
